@@ -437,6 +437,7 @@ func jobs(quick bool) []job {
 		for _, h := range []string{"S2", "S4"} {
 			add(h, 15, 2)
 		}
+		add("S12", 8, 0, 1)
 		add("S11", 14, 0)
 		add("S3", 16, 0)
 		return out
@@ -458,6 +459,7 @@ func jobs(quick bool) []job {
 	for _, h := range []string{"S2", "S4"} {
 		add(h, 60, 3)
 	}
+	add("S12", 40, 0, 1, 2)
 	add("S11", 90, 0)
 	add("S3", 240, 1)
 	add("S11", 240, 1)
